@@ -1,0 +1,13 @@
+//go:build verif
+
+// Contracts for package aucoalesce, read by the verifier in /verif (build tag
+// verif). Comments only; no code is added to the package.
+
+package aucoalesce
+
+// ---------------------------------------------------------------------------
+// C20: the embedded normalisation table only names record types and syscalls
+// the parser can produce, and selects deterministically.
+//
+//@ table[C20] yaml-subset aucoalesce/normalizations.yaml record_types auparse.auditMessageNameToType
+//@ table[C20] yaml-subset aucoalesce/normalizations.yaml syscalls auparse.AuditSyscalls allow=*
